@@ -4,6 +4,7 @@ package main
 
 import (
 	"fmt"
+	"os"
 
 	"github.com/honeytrap/honeytrap/services/decoder"
 	"verif/harness/hx"
@@ -191,17 +192,27 @@ func genDecCases(o hx.Opts, r *hx.Rand) []DecInput {
 }
 
 func main() {
+	if os.Getenv("C17_IPP_CHILD") == "1" { // part "ipp": request handler process, see ipp.go
+		ippChildMain()
+		return
+	}
 	o := hx.ParseArgs()
 	r := hx.NewRand(o.Seed)
 
 	var ins []DecInput
 	if o.Only != "" {
+		var ipp IppInput
+		if err := hx.LoadReplay(o.Only, &ipp); err == nil && ipp.Part == "ipp" {
+			runIppPart(o, r, &ipp)
+			return
+		}
 		var in DecInput
 		if err := hx.LoadReplay(o.Only, &in); err != nil {
 			panic(err)
 		}
 		ins = []DecInput{in}
 	} else {
+		defer runIppPart(o, hx.NewRand(o.Seed^0x1bb17), nil)
 		ins = genDecCases(o, r)
 	}
 	dist := map[string]int{}
